@@ -13,7 +13,7 @@ RULE = ('one case = one real audit of a scripted peer whose KEXINIT (or SSH-1 pu
         'verbose and JSON renderings; SSH-1 cipher/authentication masks; probes answered or refused.  Oracle: per category the reported name sequence equals the advertised non-empty '
         'names (UTF-8 decoded with replacement), banner and compression equal what was sent.  A case is non-trivial when the audit completed and at least one category list was compared; '
         'distinct = distinct (KEXINIT, role, rendering) specifications')
-REQUIRED = {'client_text_vs_json_direction_checks': 2, 'audits_completed': 50, 'names_compared': 500, 'client_role': 5, 'json_runs': 10, 'ssh1_runs': 5, 'special_names': 20}
+REQUIRED = {'client_text_vs_json_direction_checks': 2, 'compression_lists_without_none': 10, 'audits_completed': 50, 'names_compared': 500, 'client_role': 5, 'json_runs': 10, 'ssh1_runs': 5, 'special_names': 20}
 ASSUMPTIONS = ['verbose rendering repeats the name on every note line, so consecutive identical names are compared after merging (multiplicity is checked exactly in plain, batch and JSON renderings)',
                'client role with asymmetric direction lists: the report must equal one of the two directions (the statement does not say which)',
                'names containing space, comma or control characters are outside the quantifier (RFC 4251 forbids them)']
@@ -74,6 +74,11 @@ def build_kex(c):
     elif v == 3:
         k['follows'], k['reserved'] = True, rng.getrandbits(32)
     k['cookie'] = rng.randbytes(16).hex()
+    # compression lists that do not contain "none", repeat a name, or hold a name nobody knows (the generator's own lists always contain "none")
+    w = rng.randrange(8)
+    if w < 4:
+        k['comp_sc'] = [['zlib@openssh.com'], ['zlib', 'zlib@openssh.com'], ['zlib@openssh.com', 'none', 'none'], ['lz4@example.com', 'zlib']][w]
+        k['comp_cs'] = list(k['comp_sc'])
     return k
 
 
@@ -190,6 +195,8 @@ def compare_report(c, r, k, banner, viol, counters, client=False, alt=None):
                 how = 'multiplicity'
             special = sorted({name_class(n) or 'plain' for n in (sw ^ sg)}) or ['plain']
             viol.append(_v('C01/names-%s:%s:%s:%s' % (how, cat, render, special[0]), 'reported names differ from the advertised ones', got=[x[:80] for x in g[:30]], want=[x[:80] for x in want[:30]]))
+    if 'none' not in k['comp_sc']:
+        counters['compression_lists_without_none'] = counters.get('compression_lists_without_none', 0) + 1
     counters['special_names'] = counters.get('special_names', 0) + sum(1 for cat in exp for n in exp[cat] if name_class(n))
 
 
